@@ -119,9 +119,15 @@ def _sig(e, depth=0):
     if depth > 3:
         return "_"
     if t == "call":
-        n = re.sub(r"<[^<>]*>", "", e[1])
-        n = re.sub(r"<[^<>]*>", "", n)
-        n = "::".join(n.split("::")[-2:])
+        m = re.match(r"^<(.+) as (.+)>::(\w+)$", e[1])
+        if m:
+            # trait method on a concrete type: keep the type (TokenDecl::name and RuleDecl::name must differ)
+            ty = re.sub(r"<[^<>]*>", "", re.sub(r"<[^<>]*>", "", m.group(1))).replace("&", "").replace("mut ", "").strip()
+            n = "%s::%s" % (ty.split("::")[-1], m.group(3))
+        else:
+            n = re.sub(r"<[^<>]*>", "", e[1])
+            n = re.sub(r"<[^<>]*>", "", n)
+            n = "::".join(n.split("::")[-2:])
         return "%s(%s)" % (n, _sig(e[2][0], depth + 1) if e[2] else "")
     if t == "field":
         return "%s.%s" % (e[2].rsplit("::", 1)[-1], e[3])
